@@ -101,8 +101,19 @@ def bitwise_on_numbers(tree):
     return any(bitwise_on_numbers(k) for k in kids)
 
 
+def _number_beside_other_product(tree):
+    if tree[0] in ('arg', 'num'):
+        return False
+    op, kids, params, form = tree
+    if len(kids) == 2 and op not in ('gp', 'add', 'sub', 'div') and any(k[0] == 'num' for k in kids):
+        return True
+    return any(_number_beside_other_product(k) for k in kids)
+
+
 def in_listed_grammar(tree):
-    return ops_in(tree) <= LISTED
+    # the property lists sums, differences and PRODUCTS with plain numbers and division by a number; a number beside
+    # another binary operator (sandwich, projection, inner / outer / regressive product) is "any other use": it may raise
+    return ops_in(tree) <= LISTED and not _number_beside_other_product(tree)
 
 
 def depth(tree):
@@ -150,6 +161,9 @@ def depth1_programs(nargs, d, numbers=(2, -3)):
                 out.append((op, [('num', n), x], [], 'infix'))      # number on the left (reflected)
                 out.append((op, [x, ('num', n)], [], 'infix'))      # number on the right
             out.append(('div', [x, ('num', n)], [], 'infix'))
+            for op in ('sw', 'proj', 'ip', 'rp', 'op'):              # (outside the listed grammar: the registered function may raise)
+                out.append((op, [('num', n), x], [], 'infix'))
+                out.append((op, [x, ('num', n)], [], 'infix'))
         for n in (0, 1, 2, 3, 5, 6, -1, -2):
             out.append(('pow', [x], [n], 'infix'))
         for gs in ([0], [1], [2], [0, 2], [1, 2], list(range(d + 1))):
